@@ -27,3 +27,7 @@ func IsTextEventStream(res *http.Response) bool { return martian.VerifC02IsTextE
 func NewPatternFlushWriter(w io.Writer, f Flusher, patterns ...[2]byte) (io.Writer, error) {
 	return martian.VerifC02NewPatternFlushWriter(w, f, patterns...)
 }
+
+func HandlerWriteResponse(rw http.ResponseWriter, res *http.Response) {
+	martian.VerifC02HandlerWriteResponse(rw, res)
+}
